@@ -28,8 +28,8 @@ RULE = (
     "under if / for / with / set-block, nested imports and includes of lower libraries, own-name-then-import collisions) "
     "and 1-2 user templates with include (with/without context, ignore missing, literal name lists with missing first "
     "entries, names / lists / Template objects in variables, missing and syntactically broken targets) and import / "
-    "from-import (with/without context, aliases, unexported names) at top level and inside for / with / macro / set-block "
-    "scopes that define locals; render context, globals and locals overlap in names. Rendered sync + async and compared "
+    "from-import (with/without context, aliases, unexported names) at top level and inside for / with / macro / set-block / "
+    "call-block / filter-block scopes that define locals or buffer output; render context, globals and locals overlap in names. Rendered sync + async and compared "
     "with the reference context model; make_module export sets compared. Non-trivial = an include/import saw a local "
     "that differs from the context, or a name list's first entry was missing, or a library had a private / non-top-level "
     "assignment; distinct = distinct serialised case."
